@@ -114,6 +114,8 @@ def plan(prop, tier):
         many("c03-history", cfgs, shards=16, scale=2.0, main=cfgs)
         many("c03-history", ["default", "naive", "lowmem-a"], profile="dbg", shards=8, scale=0.5, main=("default", "naive", "lowmem-a"))
         miri("c03-history", "default-avx2", 0.0008, 0.04)
+        # one piece longer than u32::MAX must behave like the same bytes in smaller pieces
+        steps.append(S("c11-huge-slice", "default", shards=1 if q else 2, params={"property": "C03"}, timeout=2 * 3600))
         if not q:
             miri("c03-history", "lowmem-a", 0.01, 0.05)
             miri("c03-history", "naive", 0.01, 0.05, tool="miri-i686")
@@ -152,7 +154,7 @@ def plan(prop, tier):
             miri("c06-binary", "unsafe", 0.003, 0.03, shards=8)
     elif prop == "C08":
         cfgs = ["default", "naive", "embedded"] if q else ["default", "naive", "embedded", "optdef", "lowmem-a", "lowmem-b", "static-sse2", "static-sse41", "static-avx2", "unsafe", "strict"]
-        many("c08-laws", cfgs, shards=16, scale=20.0, main=cfgs)
+        many("c08-laws", cfgs, shards=16, scale=20.0 if q else 3.0, main=cfgs)
         many("c08-laws", ["default"], profile="dbg", shards=4, scale=0.25)
     elif prop == "C09":
         steps.append(S("c09-length", "default", shards=16))
@@ -168,7 +170,7 @@ def plan(prop, tier):
             steps.append(S("c09-length", "strict", shards=16))
     elif prop == "C10":
         cfgs = ["default", "naive", "lowmem-a"] if q else ["default", "naive", "lowmem-a", "lowmem-b", "optdef", "static-avx2", "unsafe"]
-        many("c10-lattice", cfgs, shards=16, scale=10.0, main=cfgs)
+        many("c10-lattice", cfgs, shards=16, scale=10.0 if q else 3.0, main=cfgs)
         many("c10-lattice", ["default", "naive"], profile="dbg", shards=4, scale=0.5)
     elif prop == "C11":
         cfgs = ["default", "naive", "lowmem-a"] if q else ["default", "naive", "lowmem-a", "lowmem-b", "unsafe", "static-avx2"]
@@ -196,7 +198,7 @@ def plan(prop, tier):
             miri("c12-stream", "unsafe", 0.01, 0.1)
     elif prop == "C13":
         cfgs = ["default", "naive", "strict"] if q else ["default", "naive", "strict", "lowmem-b", "hexsimd-parse", "unsafe", "strict-naive"]
-        many("c13-compare", cfgs, shards=16, scale=20.0, main=cfgs)
+        many("c13-compare", cfgs, shards=16, scale=20.0 if q else 5.0, main=cfgs)
         many("c13-compare", ["default", "strict"], profile="dbg", shards=4, scale=0.5)
     elif prop == "C14":
         cfgs = ["default", "naive", "embedded", "lowmem-a", "lowmem-b", "hexsimd-conv", "strict", "unsafe"]
@@ -253,6 +255,9 @@ def plan(prop, tier):
             steps.append(S("c07-firstcall", "default", profile="dev", tool="miri", shards=16, timeout=4 * 3600,
                            miri_flags="-Zmiri-many-seeds=0..64", params={"fail_exit": 1, "threads": 3}))
         steps.append(S("c07-firstcall", "default", tool="tsan", shards=40 if q else 1000, timeout=1200))
+        for c in (["default-sse3"] if q else ["default-sse3", "default-ssse3", "default-sse41"]):
+            steps.append(S("c07-firstcall", c, profile="dev", tool="miri", shards=4 if q else 16, timeout=4 * 3600,
+                           miri_flags="-Zmiri-many-seeds=0..%d" % (1 if q else 16), params={"fail_exit": 1, "threads": 2}))
     elif prop == "C18":
         cfgs = ["alloc-default", "alloc-naive", "alloc-static-avx2", "alloc-lowmem-a", "alloc-strict", "alloc-unsafe", "alloc-embedded"]
         for c in cfgs:
@@ -270,10 +275,13 @@ def plan(prop, tier):
         for c in ["inv-default", "inv-naive", "inv-serde-strict"]:
             steps.append(S("c17-fuzz", c, shards=8, scale=0.5, crash_is_violation=True))
         # Miri: undefined behaviour, out-of-bounds, invalid SIMD loads, unreachable_unchecked
-        mcfgs = ["default-avx2", "unsafe-avx2", "unsafe-naive", "unsafe"] if q else \
-            ["default-avx2", "unsafe-avx2", "unsafe-naive", "unsafe", "default", "naive", "static-sse41", "unsafe-static-avx2", "unsafe-lowmem-b", "serde-strict-avx2"]
+        # (`default-sse3/-ssse3/-sse41` emulate older CPU classes: Miri's feature detection is the
+        #  compile-time target-feature set, so each selects a different rung of the dispatch ladder)
+        mcfgs = ["default-avx2", "unsafe-avx2", "unsafe-naive", "unsafe", "default-sse3"] if q else \
+            ["default-avx2", "unsafe-avx2", "unsafe-naive", "unsafe", "default", "default-sse3", "default-ssse3", "default-sse41",
+             "naive", "static-sse41", "unsafe-static-avx2", "unsafe-lowmem-b", "serde-strict-avx2"]
         for c in mcfgs:
-            steps.append(S("c17-fuzz", c, profile="dev", tool="miri", shards=12, scale=0.0025 if q else 0.03, timeout=4 * 3600))
+            steps.append(S("c17-fuzz", c, profile="dev", tool="miri", shards=10, scale=0.002 if q else 0.03, timeout=4 * 3600))
         # every compiled SIMD back end called directly under Miri (hooks H4/H5)
         P17 = {"property": "C17"}
         for c in (["default-avx2"] if q else ["default-avx2", "unsafe-avx2", "static-sse41"]):
